@@ -25,6 +25,7 @@ def run(tier):
     inhabited = set(fname(f["family"]) for f in fam[0]["families"])
     empty = set(fname(f) for f in fam[0]["empty"])
     accepted = {"reduced/full/honest", "reduced/full/mixed"}
+    inhabited |= set("cofactored_only/%s" % x for x in fam[0]["cofactored_only"])
     wd = workdir("c06")
     tf = os.path.join(wd, "table.json")
     json.dump(table[0], open(tf, "w"))
